@@ -814,6 +814,16 @@ func (t *tree) boolAttr(attrs map[string]string, key string, defaultValue bool) 
 func (t *tree) parseQuotedExpr(str string) ast.Node {
 	var tt = &tree{lex: lexExpr("", str)}
 	defer tt.lex.drain()
+	defer func() {
+		// an error of the nested parser is positioned within str and carries
+		// no file name: report it at the current position in this file.
+		if e := recover(); e != nil {
+			if _, ok := e.(runtime.Error); ok {
+				panic(e)
+			}
+			t.errorf("in expression %q: %v", str, e)
+		}
+	}()
 	return tt.parseExpr(0)
 }
 
